@@ -197,7 +197,7 @@ TABLE = {
 CONSTANTS = {
     'string.ascii_letters': string.ascii_letters, 'string.ascii_uppercase': string.ascii_uppercase,
     'string.ascii_lowercase': string.ascii_lowercase, 'string.digits': string.digits,
-    'numpy.inf': None, 'math.inf': None,
+    'numpy.inf': None, 'math.inf': None, 'sys.argv': ['prog'],
 }
 
 EXTRA = {}      # contracts may register further externals: dotted -> fn(eng,args,kwargs,node)
